@@ -943,6 +943,7 @@ pub fn run(task: &str) -> Option<EvalResult> {
         "curry_ground" => Some(crate::t_tree_hash::curry_ground()),
         "dedup_ground" => Some(crate::dedup::dedup_ground()),
         "alloc_ground" => Some(crate::alloc_watch::alloc_ground()),
+        "ff_ground" => Some(crate::ff::ff_ground()),
         "roundtrip_ground" => Some(crate::roundtrip::roundtrip_ground(false)),
         "roundtrip_ground:thorough" => Some(crate::roundtrip::roundtrip_ground(true)),
         "pos_v2_hash" => Some(pos_v2_hash()),
